@@ -312,8 +312,8 @@ def firstDup : List Nat → Bool
   | x :: xs => xs.contains x || firstDup xs
 
 /-- `_gate_add(qc, command, custom_gates, classical_controls, classical_control_value)` -/
-def gateAdd (st : Init) (known : List Str) (name : Str) (ps : List Expr) (args : List Arg)
-    (cc : Option (List Nat)) (cv : Option Nat) : Except Err (List IOp × List Str) :=
+def gateAdd (st : Init) (known : List (Str × List IGate)) (name : Str) (ps : List Expr) (args : List Arg)
+    (cc : Option (List Nat)) (cv : Option Nat) : Except Err (List IOp × List (Str × List IGate)) :=
   match regSet st args with
   | .error e => .error e
   | .ok rs =>
@@ -333,12 +333,14 @@ def gateAdd (st : Init) (known : List Str) (name : Str) (ps : List Expr) (args :
                 | .ok l => .ok (gs.map IOp.gate ++ l)
         (loop rs).map (·, known)
     else
-      let expand : Except Err (List IGate × List Str) :=
-        if known.contains gname then .ok ([], known)
-        else match rs with
+      let expand : Except Err (List IGate × List (Str × List IGate)) :=
+        match known.find? (fun e => e.1 == gname) with
+        | some e => .ok (e.2, known)        -- `custom_gates[gate_name]` already computed
+        | none =>
+          match rs with
           | [] => .error .index
           | r0 :: _ =>
-            (customGate st.defs 64 name ps (List.range r0.length)).map (·, gname :: known)
+            (customGate st.defs 64 name ps (List.range r0.length)).map (fun g => (g, (gname, g) :: known))
       match expand with
       | .error e => .error e
       | .ok (inner, known') =>
@@ -376,10 +378,10 @@ def measure (st : Init) (q c : Arg) : Except Err (List IOp) :=
 /-! ## `_final_pass` -/
 
 /-- user gates of `_get_qiskit_gates` are in `custom_gates` from the start -/
-def initialKnown : List Str := Gen.userGates
+def initialKnown : List (Str × List IGate) := Gen.userGates.map (·, [])
 
-def qopAdd (st : Init) (known : List Str) (cc : Option (List Nat)) (cv : Option Nat) (viaIf : Bool) :
-    QOp → Except Err (List IOp × List Str)
+def qopAdd (st : Init) (known : List (Str × List IGate)) (cc : Option (List Nat)) (cv : Option Nat)
+    (viaIf : Bool) : QOp → Except Err (List IOp × List (Str × List IGate))
   | .U a b c q => gateAdd st known cs!"U" [a, b, c] [q] cc cv
   | .CX a b => gateAdd st known cs!"CX" [] [a, b] cc cv
   | .call n ps qs =>
@@ -387,10 +389,10 @@ def qopAdd (st : Init) (known : List Str) (cc : Option (List Nat)) (cv : Option 
   | .measure q c => if viaIf then .error .key else (measure st q c).map (·, known)
   | .reset _ => .error .key
 
-def finalPass (st : Init) : List Stmt → List Str → Except Err (List IOp)
+def finalPass (st : Init) : List Stmt → List (Str × List IGate) → Except Err (List IOp)
   | [], _ => .ok []
   | s :: ss, known =>
-    let r : Except Err (List IOp × List Str) :=
+    let r : Except Err (List IOp × List (Str × List IGate)) :=
       match s with
       | .qop op => qopAdd st known none none false op
       | .ifc c k op =>
